@@ -1,8 +1,11 @@
 package checks
 
 import (
+	"bytes"
 	"fmt"
 	"math/rand"
+
+	"github.com/wkhere/bcl"
 
 	"verif/internal/core"
 	"verif/internal/lang"
@@ -250,7 +253,42 @@ func init() {
 
 // ---------------------------------------------------------------- C02
 
+// c02Depths: the operand-stack depth right after each executed PRINT must be
+// the number of variables the reference has alive at that print statement
+// (the compile-time slot table and the run-time stack move in lock step).
+func c02Depths(c *core.Ctx, cs *Case) {
+	if cs.Oc == nil || cs.Oc.Unspecified != "" || cs.Verdict.Kind != lang.Accept || len(cs.Oc.LiveAtPrint) == 0 {
+		return
+	}
+	var out, lg bytes.Buffer
+	p, err := bcl.Parse(cs.Laid.Src, "c02", bcl.OptOutput(&out), bcl.OptLogger(&lg))
+	if err != nil {
+		return
+	}
+	var depths []int
+	prev := byte(255)
+	bcl.VerifSetVMHook(func(st bcl.VerifVMState) {
+		if prev == 2 { // PRINT
+			depths = append(depths, st.Tos)
+		}
+		prev = st.Op
+	})
+	pan, _ := protect(func() { bcl.Execute(p) })
+	bcl.VerifSetVMHook(nil)
+	if pan != "" {
+		return
+	}
+	c.Eval(1)
+	if fmt.Sprint(depths) != fmt.Sprint(cs.Oc.LiveAtPrint) {
+		c.Violation("stack-depth-at-print", fmt.Sprintf("operand-stack depth after each executed print is %v, the reference has %v variables alive there", depths, cs.Oc.LiveAtPrint),
+			map[string]any{"source": string(cs.Laid.Src), "source_q": fmt.Sprintf("%q", cs.Laid.Src)})
+		return
+	}
+	c.Count("print_statements_with_stack_depth_checked", int64(len(depths)))
+}
+
 func c02Extra(c *core.Ctx, i int64, cs *Case, r ImplResult, g *lang.Gen) {
+	c02Depths(c, cs)
 	if cs.Oc == nil {
 		return
 	}
